@@ -221,6 +221,10 @@ def entry_name(cfg):
     return f"MultiTaskReplayBuffer({base})" if cfg["tasks"] else base
 
 
+def DIVERGENCE_ENTRY(item):
+    return entry_name(item) if item.get("kind") == "bfs" else "prioritized-replay"
+
+
 def nontrivial(bd, t):
     bf = inner_buffers(bd)[t]
     p = valid_weights(bf)
